@@ -443,7 +443,14 @@ func hookToken(kind int) uint64 {
 		// the child's first slot is reserved last: it must lie in the future
 		// when the child starts, so that parent and child never share an instant
 		// beyond the spawn itself
-		s.firstSlot[tok] = s.reserve(500 + int64(s.costRng.Intn(4000)))
+		d0 := 500 + int64(s.costRng.Intn(4000))
+		if s.Cost.TimerFireStallPct > 0 && s.costRng.Intn(100) < s.Cost.TimerFireStallPct {
+			// fault F3 on the timer goroutine: it is not scheduled for a while
+			// after it has been spawned (the search may have ended by then)
+			s.TimerFireStalls++
+			d0 += int64(s.costRng.Intn(s.Cost.TimerFireStallMaxUs*1000 + 1))
+		}
+		s.firstSlot[tok] = s.reserve(d0)
 	case verifhook.BookSpawn:
 		s.BookWorkers++
 		s.firstSlot[tok] = s.reserve(s.bookFirstDelay(tok))
